@@ -117,3 +117,19 @@ def attribute_to_pattern_encoders(col, n0, rerun):
     for v in tmp.violations:
         v.setdefault('where', {})['after_excluding_pattern_encoders'] = True
     col.violations[n0:] = keep + tmp.violations
+
+
+def linked_partial_only(spec, assigns) -> bool:
+    """True iff every given architecture (option assignment: active choices are its keys) has some LINKED
+    selection-choice constraint of which at least one member is active and at least one is not.  Discriminates the
+    known fast-encoder LINKED merging (KF-CON-LINKED-FAST: only architectures with partially active link groups are
+    lost) from any other loss of architectures under a LINKED constraint."""
+    sel_keys = {c['key'] for c in spec['sel']}
+    linked = [c['choices'] for c in spec['constraints'] if c['type'] == 'LINKED' and all(x in sel_keys
+                                                                                          for x in c['choices'])]
+    if not linked or not assigns:
+        return False
+    for a in assigns:
+        if not any(0 < sum(1 for x in ch if x in a) < len(ch) for ch in linked):
+            return False
+    return True
